@@ -10,174 +10,169 @@ LEVEL = "model_checking"
 SCALARS = [-1.0, 0.5, 2.0, 0.0]
 
 
-def menu_for(kind, L):
-    return H.pwc_menu(L) if kind == "pwc" else H.pwl_menu(L)
+def grid_of(spec):
+    return H.reg(spec[1]) if spec[0] == "reg" else H.near(spec[1])
+
+
+def menu_for(kind, spec):
+    G = grid_of(spec)
+    return H.pwc_menu(G) if kind == "pwc" else H.pwl_menu(G)
 
 
 def plan(tier):
     if tier == "quick":
-        specs = [("pwc", 4, 3), ("pwl", 4, 3), ("pwc", 5, 2), ("pwl", 5, 2), ("pwc", 6, 1), ("pwl", 6, 1)]
+        specs = [("pwc", ("reg", 4), 3), ("pwl", ("reg", 4), 3), ("pwc", ("reg", 5), 2),
+                 ("pwl", ("reg", 5), 2), ("pwc", ("reg", 6), 1), ("pwl", ("reg", 6), 1),
+                 ("pwc", ("near", 3), 2), ("pwl", ("near", 3), 2)]
     else:
-        specs = [("pwc", 4, 3), ("pwl", 4, 3), ("pwc", 5, 3), ("pwl", 5, 3), ("pwc", 6, 2),
-                 ("pwl", 6, 2)]
+        specs = [("pwc", ("reg", 4), 3), ("pwl", ("reg", 4), 3), ("pwc", ("reg", 5), 3),
+                 ("pwl", ("reg", 5), 3), ("pwc", ("reg", 6), 2), ("pwl", ("reg", 6), 2),
+                 ("pwc", ("near", 3), 3), ("pwl", ("near", 3), 3), ("pwc", ("near", 4), 2),
+                 ("pwl", ("near", 4), 2)]
     tasks = []
     desc = []
-    for kind, L, depth in specs:
-        names = [n for n, _, _ in menu_for(kind, L)]
+    for kind, spec, depth in specs:
+        names = [n for n, _, _ in menu_for(kind, spec)]
         nsh = min(len(names), 16 if depth < 3 else 48)
         for be in ("py", "pyx"):
             for s in range(nsh):
-                tasks.append({"backend": be, "kind": kind, "L": L, "depth": depth,
+                tasks.append({"backend": be, "kind": kind, "grid": list(spec), "depth": depth,
                               "shard": s, "nshards": nsh})
-        desc.append({"class": kind, "support_cells": L, "operand_menu": len(names),
-                     "history_depth": depth, "scalars": SCALARS,
+        desc.append({"class": kind, "grid": list(spec), "grid_points": grid_of(spec),
+                     "operand_menu": len(names), "history_depth": depth, "scalars": SCALARS,
                      "value_patterns": H.PWC_PATTERNS if kind == "pwc" else H.PWL_PATTERNS})
     return {
         "tasks": tasks,
         "bounds": {"explorations": desc, "backends": ["py", "pyx-model (cython_add)"]},
         "rule": "breadth-first search over operation histories add(g)/mul_scalar(c)/copy() on live "
                 "PieceWiseConstFunc / PieceWiseLinFunc objects, starting from every function of "
-                "the operand menu (all breakpoint subsets of the interior lattice points x value "
-                "patterns incl. Python-int values); states are deduplicated by the exact model "
-                "state; distinct = distinct model states reached",
+                "the operand menu (all breakpoint subsets of the interior grid points x value "
+                "patterns incl. Python-int values); 'reg' grids are the time lattice, 'near' grids "
+                "add breakpoints 2^-30 next to lattice points (near-ties); states are "
+                "deduplicated by the exact model state; distinct = distinct model states reached",
         "exhaustive": True,
-        "assumptions": ["breakpoints on the lattice, dyadic values (all sums exact)",
+        "assumptions": ["breakpoints on the stated grids, dyadic values (all sums exact)",
                         "pyx configuration = rendered cython_add.pyx"],
         "explanation": "every state: breakpoints = strictly increasing union with unchanged end "
                        "points, piece values / one-sided limits and the integral equal the exact "
-                       "grid model; every transition: operand byte-identical, copies independent; "
-                       "merging histories must have produced the same object (order independence); "
-                       "average_profile over all pairs and some triples",
+                       "grid model; every transition: operand byte-identical, copies independent "
+                       "in both directions; merging histories must have produced the same object "
+                       "(order independence); f+g vs g+f and average_profile over all pairs",
     }
 
 
-def state_check(kind, obj, model):
-    """returns None or (sub, expected, observed, message)"""
-    c = H.canon(kind, obj)
-    x, ys = model.expected()
-    if list(c[0]) != x:
-        return ("breakpoints", x, c[0],
-                "breakpoints are not the strictly increasing union of the operands' "
-                "breakpoints with unchanged end points")
-    for got, exp in zip(c[1:], ys):
-        if len(got) != len(exp) or any(abs(a - b) > TOL for a, b in zip(got, exp)):
-            return ("values", ys, c[1:], "piece values / one-sided limits differ from the "
-                    "pointwise linear combination")
+def make_state_check(kind):
+    def state_check(obj, model):
+        """returns None or (sub, expected, observed, message)"""
+        c = H.canon(kind, obj)
+        x, ys = model.expected()
+        if list(c[0]) != x:
+            return ("breakpoints", x, c[0],
+                    "breakpoints are not the strictly increasing union of the operands' "
+                    "breakpoints with unchanged end points")
+        for got, exp in zip(c[1:], ys):
+            if len(got) != len(exp) or any(abs(a - b) > TOL for a, b in zip(got, exp)):
+                return ("values", ys, c[1:], "piece values / one-sided limits differ from the "
+                        "pointwise linear combination")
+        try:
+            I = float(obj.integral())
+        except Exception as e:
+            return ("integral.exception", "a number", "%s: %s" % (type(e).__name__, e),
+                    "integral() raised")
+        Ie = float(model.integral())
+        if abs(I - Ie) > TOL:
+            return ("integral", Ie, I, "integral is not the combination of the operands' integrals")
+        return None
+    return state_check
+
+
+def pair_checks(kind, by_name, a, b, state_check):
+    """commutativity and average_profile for the operand pair (a, b)"""
+    from pyspike.DiscreteFunc import average_profile
+    out = []
     try:
-        I = float(obj.integral())
+        fa, ma = H.replay_history(kind, by_name, [a, ("add", b)])
+        fb, mb = H.replay_history(kind, by_name, [b, ("add", a)])
+        if not H._canon_close(H.canon(kind, fa), H.canon(kind, fb), kind):
+            out.append(("commutativity", H.canon(kind, fb), H.canon(kind, fa),
+                        "f.add(g) and g.add(f) differ"))
+        pa = H.build(kind, by_name[a][0])
+        pb = H.build(kind, by_name[b][0])
+        sa, sb = H.snapshot(kind, pa), H.snapshot(kind, pb)
+        avg = average_profile([pa, pb])
+        if H.snapshot(kind, pa) != sa or H.snapshot(kind, pb) != sb:
+            out.append(("average_profile.modifies", "inputs unchanged", "changed",
+                        "average_profile modified one of its inputs"))
+        bad = state_check(avg, ma.mul(0.5))
+        if bad:
+            out.append(("average_profile." + bad[0], bad[1], bad[2], bad[3]))
     except Exception as e:
-        return ("integral.exception", "a number", "%s: %s" % (type(e).__name__, e),
-                "integral() raised")
-    Ie = float(model.integral())
-    if abs(I - Ie) > TOL:
-        return ("integral", Ie, I, "integral is not the combination of the operands' integrals")
-    return None
+        out.append(("pair.exception", "succeeds", "%s: %s" % (type(e).__name__, e),
+                    "add / average_profile raised"))
+    return out
 
 
 def run_task(task):
-    from mc import backend
     r = Result()
-    kind, L, depth = task["kind"], task["L"], task["depth"]
+    kind, spec, depth = task["kind"], tuple(task["grid"]), task["depth"]
     be = task["backend"]
-    menu = menu_for(kind, L)
+    menu = menu_for(kind, spec)
     names = [n for n, _, _ in menu]
     inits = [n for i, n in enumerate(names) if i % task["nshards"] == task["shard"]]
     by_name = {n: (a, m) for n, a, m in menu}
+    state_check = make_state_check(kind)
 
     def viol(sub, hist, exp, obs, msg):
-        cls = "int" if any(":int" in str(h) or (isinstance(h, (list, tuple)) and ":int" in str(h[1]))
-                           for h in hist) else "float"
-        r.violation(ID, sub, be, "%s/%s/%s/%s" % (sub, kind, be, cls),
-                    {"kind": kind, "L": L, "history": hist}, exp, obs, msg,
-                    (len(hist), len(str(hist))))
+        case = {"kind": kind, "grid": list(spec)}
+        if isinstance(hist, dict):
+            case.update(hist)
+        else:
+            case["history"] = hist
+        cls = "int" if ":int" in str(hist) else "float"
+        r.violation(ID, sub, be, "%s/%s/%s/%s/%s" % (sub, kind, spec[0], be, cls), case, exp, obs,
+                    msg, (len(str(hist)),))
 
     def on_state(obj, model, hist):
         r.evaluations += 1
         r.traces += 1
         r.sigs.add(hash(model.key()) & 0xffffffffffff)
-        bad = state_check(kind, obj, model)
+        bad = state_check(obj, model)
         if bad:
             viol(bad[0], hist, bad[1], bad[2], bad[3])
         if r.states % 199 == 1:
             r.sample({"kind": kind, "history": hist, "state": H.canon(kind, obj)})
 
-    add_names = names
-    # deeper levels: restrict the added operands to keep the frontier finite
-    H.explore(kind, menu, inits, add_names, SCALARS, depth, r, on_state, viol)
-    # commutativity across init functions + average_profile
-    import pyspike as spk
-    from pyspike.DiscreteFunc import average_profile
+    H.explore(kind, menu, inits, names, SCALARS, depth, r, on_state, viol)
     for a in inits:
         for b in names:
             r.transitions += 1
-            try:
-                fa, ma = H.replay_history(kind, by_name, [a, ("add", b)])
-                fb, mb = H.replay_history(kind, by_name, [b, ("add", a)])
-                if not H._canon_close(H.canon(kind, fa), H.canon(kind, fb), kind):
-                    viol("commutativity", [a, ("add", b)], H.canon(kind, fb), H.canon(kind, fa),
-                         "f.add(g) and g.add(f) differ")
-                pa = H.build(kind, by_name[a][0])
-                pb = H.build(kind, by_name[b][0])
-                sa, sb = H.snapshot(kind, pa), H.snapshot(kind, pb)
-                avg = average_profile([pa, pb])
-                if H.snapshot(kind, pa) != sa or H.snapshot(kind, pb) != sb:
-                    viol("average_profile.modifies", [a, ("avg", b)], "inputs unchanged", "changed",
-                         "average_profile modified one of its inputs")
-                bad = state_check(kind, avg, ma.mul(0.5))
-                if bad:
-                    viol("average_profile." + bad[0], [a, ("avg", b)], bad[1], bad[2], bad[3])
-            except Exception as e:
-                viol("exception", [a, ("add/avg", b)], "succeeds", "%s: %s" % (type(e).__name__, e),
-                     "add / average_profile raised")
+            for sub, exp, obs, msg in pair_checks(kind, by_name, a, b, state_check):
+                viol(sub, {"pair": [a, b]}, exp, obs, msg)
     return r
 
 
 def replay(rec):
-    """re-run the recorded history step by step with all per-state checks"""
     r = Result()
     c = rec["case"]
-    kind, L = c["kind"], c["L"]
+    kind, spec = c["kind"], tuple(c["grid"])
     be = rec["backend"]
-    menu = menu_for(kind, L)
+    menu = menu_for(kind, spec)
+    names = [n for n, _, _ in menu]
     by_name = {n: (a, m) for n, a, m in menu}
-    hist = [tuple(h) if isinstance(h, list) else h for h in c["history"]]
-    sub = rec["check"]
-
-    def viol(s, exp, obs, msg):
-        r.violation(ID, s, be, rec["signature"], c, exp, obs, msg)
-
-    try:
-        if sub in ("commutativity",) or sub.startswith("average_profile") or \
-                (len(hist) == 2 and hist[1][0] in ("avg", "add/avg")):
-            a, b = hist[0], hist[1][1]
-            fa, ma = H.replay_history(kind, by_name, [a, ("add", b)])
-            fb, mb = H.replay_history(kind, by_name, [b, ("add", a)])
-            if not H._canon_close(H.canon(kind, fa), H.canon(kind, fb), kind):
-                viol("commutativity", H.canon(kind, fb), H.canon(kind, fa), "f.add(g) != g.add(f)")
-            from pyspike.DiscreteFunc import average_profile
-            avg = average_profile([H.build(kind, by_name[a][0]), H.build(kind, by_name[b][0])])
-            bad = state_check(kind, avg, ma.mul(0.5))
-            if bad:
-                viol("average_profile." + bad[0], bad[1], bad[2], bad[3])
-            return r
-        # generic: replay every prefix
-        rr = Result()
-        seen_viol = []
-
-        def v2(s, h, exp, obs, msg):
-            seen_viol.append((s, exp, obs, msg))
-
-        H.explore(kind, menu, [hist[0]], [n for n, _, _ in menu], SCALARS, 0, rr,
-                  lambda o, m, h: None, v2)
-        for i in range(1, len(hist) + 1):
-            obj, model = H.replay_history(kind, by_name, hist[:i])
-            bad = state_check(kind, obj, model)
-            if bad:
-                viol(bad[0], bad[1], bad[2], bad[3])
-                return r
-        if sub == "order_dependence":
-            # the message names the first history; replay both
-            pass
-    except Exception as e:
-        viol("exception", "succeeds", "%s: %s" % (type(e).__name__, e), "operation raised")
+    state_check = make_state_check(kind)
+    found = []
+    if "pair" in c:
+        found = pair_checks(kind, by_name, c["pair"][0], c["pair"][1], state_check)
+    else:
+        found = H.replay_checks(kind, menu, c["history"], names[0], state_check)
+        if "other_history" in c:
+            found += H.replay_checks(kind, menu, c["other_history"], names[0], state_check)
+            o1, _ = H.replay_history(kind, by_name, H.norm_hist(c["history"]))
+            o2, _ = H.replay_history(kind, by_name, H.norm_hist(c["other_history"]))
+            if not H._canon_close(H.canon(kind, o1), H.canon(kind, o2), kind):
+                found.append(("order_dependence", H.canon(kind, o2), H.canon(kind, o1),
+                              "two histories denoting the same function produced different "
+                              "objects"))
+    for sub, exp, obs, msg in found:
+        r.violation(ID, sub, be, rec["signature"], c, exp, obs, msg)
     return r
